@@ -36,7 +36,9 @@ RULE = ('objects: unsegmented (Data named exactly the prefix / with a version / 
         'random; discovery answered by every segment number (and by none); retry_times 0..4; per-Interest scripts built per '
         'request relative to the limit (0, 1, limit-1, limit, limit+1 losses, then an answer / Nack / invalid Data) plus '
         'random scripts; every Interest name the simulated producer sees is compared byte for byte with the name the '
-        'names-level model builds; non-trivial = at least two Interests were sent and something was yielded or a retry happened; '
+        'names-level model builds; a targeted stream: 255..520 segments (2-byte segment numbers, FinalBlockId on 254..257), '
+        'every Nack reason (which must propagate too), the prefix given as str / list / wire, and - oracle only - segments with '
+        'empty or absent Content and FinalBlockId components of another type; non-trivial = at least two Interests were sent and something was yielded or a retry happened; '
         'distinct = distinct (object, discovery, limit, script)')
 
 PREFIX = '/obj'
